@@ -8,6 +8,14 @@ COMMON_ASSUME = [
 from extras import pod_features
 
 PROPS = {
+    "C09": {
+        "lean_module": "SplProofs.C09",
+        "streams": ["C09"],
+        "rule": "stream lvhist: histories of init / push / remove(i) / set / sort (3 comparators incl. one that only looks at the first byte, to observe stability) / reopen / bytes_used / "
+                "bytes_allocated over 8 element types x 4 prefix types at aligned offsets of a 16-aligned arena, capacities 0..6, initial buffers zeroed or garbage, full buffer compared after every op, "
+                "shadow Vec oracle; plus the prefix-maximum histories (u8 elements, 16-bit prefix, capacity 65535/65536, length 65534 -> 65535 -> overflow); non-trivial = history with >= 2 successful and >= 1 failing op",
+        "assumptions": COMMON_ASSUME + ["capacity < usize::MAX (buffers are smaller than the address space)"],
+    },
     "C10": {
         "lean_module": "SplProofs.C10",
         "streams": ["C10"],
